@@ -64,9 +64,30 @@ static void one(Out& out, const std::vector<std::string>& strs, int pset, bool l
     vsched::set_hardware_concurrency(threads);
     vsched::Config cfg; cfg.seed = seed; cfg.strategy = strat; cfg.pct_depth = 3; cfg.pct_steps = 2000; cfg.max_steps = 20000000;
     cfg.post_points = (seed >> 7) & 1;
+    const int fe = pset == 0 ? (int)((seed >> 3) % 10) : -1;
+    std::vector<std::string> sv = strs;                  // std::string front ends (8, 9): objects are identified by content
     vsched::Result res = vsched::run([&] {
         UCharStringSet ss(ptrs.data(), ptrs.data() + n);
-        if (pset == 0) { if (lcp) tlx::sort_strings_parallel_lcp(ptrs.data(), n, lcps.data()); else tlx::sort_strings_parallel(ptrs.data(), n); return; }
+        if (pset == 0) {
+            // the library front ends: all ten argument forms of sort_strings_parallel / sort_strings_parallel_lcp in rotation
+            std::uint32_t* L = lcps.data();
+            switch (fe) {
+            case 0: if (lcp) tlx::sort_strings_parallel_lcp(ptrs.data(), n, L); else tlx::sort_strings_parallel(ptrs.data(), n); break;
+            case 1: { char** p = reinterpret_cast<char**>(ptrs.data()); if (lcp) tlx::sort_strings_parallel_lcp(p, n, L); else tlx::sort_strings_parallel(p, n); break; }
+            case 2: { const unsigned char** p = const_cast<const unsigned char**>(ptrs.data()); if (lcp) tlx::sort_strings_parallel_lcp(p, n, L); else tlx::sort_strings_parallel(p, n); break; }
+            case 3: { const char** p = const_cast<const char**>(reinterpret_cast<char**>(ptrs.data())); if (lcp) tlx::sort_strings_parallel_lcp(p, n, L); else tlx::sort_strings_parallel(p, n); break; }
+            case 4: { std::vector<char*> v(n); for (size_t i = 0; i < n; ++i) v[i] = reinterpret_cast<char*>(ptrs[i]);
+                      if (lcp) tlx::sort_strings_parallel_lcp(v, L); else tlx::sort_strings_parallel(v); for (size_t i = 0; i < n; ++i) ptrs[i] = reinterpret_cast<unsigned char*>(v[i]); break; }
+            case 5: if (lcp) tlx::sort_strings_parallel_lcp(ptrs, L); else tlx::sort_strings_parallel(ptrs); break;
+            case 6: { std::vector<const char*> v(n); for (size_t i = 0; i < n; ++i) v[i] = reinterpret_cast<const char*>(ptrs[i]);
+                      if (lcp) tlx::sort_strings_parallel_lcp(v, L); else tlx::sort_strings_parallel(v); for (size_t i = 0; i < n; ++i) ptrs[i] = reinterpret_cast<unsigned char*>(const_cast<char*>(v[i])); break; }
+            case 7: { std::vector<const unsigned char*> v(n); for (size_t i = 0; i < n; ++i) v[i] = ptrs[i];
+                      if (lcp) tlx::sort_strings_parallel_lcp(v, L); else tlx::sort_strings_parallel(v); for (size_t i = 0; i < n; ++i) ptrs[i] = const_cast<unsigned char*>(v[i]); break; }
+            case 8: if (lcp) tlx::sort_strings_parallel_lcp(sv.data(), n, L); else tlx::sort_strings_parallel(sv.data(), n); break;
+            default: if (lcp) tlx::sort_strings_parallel_lcp(sv, L); else tlx::sort_strings_parallel(sv); break;
+            }
+            return;
+        }
 #define RUNP(P) do { if (lcp) parallel_sample_sort_params<P>(StringLcpPtr<UCharStringSet, std::uint32_t>(ss, lcps.data()), 0, 0); else parallel_sample_sort_params<P>(StringPtr<UCharStringSet>(ss), 0, 0); } while (0)
         switch (pset) { case 1: RUNP(PTiny1); break; case 2: RUNP(PTiny2); break; case 3: RUNP(PTiny3); break; case 4: RUNP(PNoSeqSS); break; case 5: RUNP(PNoShare); break; case 6: RUNP(PTree10); break; case 8: RUNP(PTiny4); break; case 9: RUNP(PBig1); break; case 10: RUNP(PEqual); break; default: RUNP(PUnroll); break; }
     }, cfg);
@@ -81,12 +102,17 @@ static void one(Out& out, const std::vector<std::string>& strs, int pset, bool l
         e.emit(out); g_hook.clear();
     }
 #endif
-    std::vector<long long> outidx; for (size_t i = 0; i < n; ++i) { auto it = id.find(ptrs[i]); outidx.push_back(it == id.end() ? -1 : it->second); }
+    std::vector<long long> outidx;
+    if (fe >= 8) {       // match every output string with a not yet used input of the same content
+        std::multimap<std::string, long long> pool; for (size_t i = 0; i < n; ++i) pool.emplace(strs[i], (long long)i + 1);
+        for (size_t i = 0; i < n && i < sv.size(); ++i) { auto it = pool.find(sv[i]); if (it == pool.end()) outidx.push_back(-1); else { outidx.push_back(it->second); pool.erase(it); } }
+    } else
+    for (size_t i = 0; i < n; ++i) { auto it = id.find(ptrs[i]); outidx.push_back(it == id.end() ? -1 : it->second); }
     std::vector<long long> l(lcps.begin(), lcps.begin() + n); if (!l.empty()) l[0] = 0;
     std::string pt = "[";
     for (size_t i = 0; i < res.problems.size() && i < 3; ++i) pt += std::string(i ? "," : "") + "\"" + res.problems[i] + "\"";
     Ev e("ssort"); e.raw("in", BB(strs)).arr("out", outidx).boolean("haslcp", lcp).arr("lcp", l).num("problems", (long long)res.problems.size()).raw("problem_text", pt + "]")
-        .boolean("deadlock", res.deadlock || res.livelock).str("params", PNAME[pset]).num("threads", threads).num("strategy", strat).num("steps", res.steps);
+        .boolean("deadlock", res.deadlock || res.livelock).str("params", PNAME[pset]).num("threads", threads).num("strategy", strat).num("steps", res.steps).num("frontend", fe);
     e.emit(out);
 }
 
